@@ -35,7 +35,8 @@
    not hand-written: Model.v calls Gen/InterpWeights.v, REGENERATED from discr_utils.py on every
    run by translate/interp_weights.py, so the theorems are re-checked against the current source. *)
 From Coq Require Import ZArith QArith Reals List Bool.
-From Verif Require Import Base.Num Base.Vec C15.Syntax Gen.InterpWeights C15.Model C15.Call C15.Proofs C15.Refuted.
+From Coq Require Import Qreals.
+From Verif Require Import Base.Num Base.Vec C15.Syntax Gen.InterpWeights C15.Model C15.Call C15.Proofs C15.Refuted C15.Transfer.
 Import ListNotations.
 Local Open Scope R_scope.
 
@@ -411,6 +412,30 @@ Theorem call_returns_model_values : forall k ss (cvs : list (list R)) flat i,
   interp_call current k ss cvs DFloat flat i None = Ok (run current k ss cvs flat i).
 Proof. exact interp_call_float_ok. Qed.
 Print Assumptions call_returns_model_values.
+
+(* ------------------------------------------------------------------ *)
+(* T16 (transfer).  What the correspondence shards execute at Q (vm_compute on the SAME
+   polymorphic definitions, regenerated helpers included) is the rational restriction of what the
+   theorems above are about at R: Q2R commutes with the whole interpolator call, with mesh
+   evaluation and with collocation of the expression language -- for all inputs, no side
+   condition (x / 0 = 0 in both carriers). *)
+Theorem executed_call_is_restriction_of_proved_call :
+  forall var k ss (cvs : list (list Q)) dt (flat : list Q) (i : @input Q) o,
+  outQ2R (interp_call var k ss cvs dt flat i o)
+  = interp_call var k ss (map (map Q2R) cvs) dt (map Q2R flat) (inQ2R i) o.
+Proof. exact interp_call_transfer. Qed.
+Print Assumptions executed_call_is_restriction_of_proved_call.
+
+Theorem executed_mesh_is_restriction : forall ss (cvs : list (list Q)) shape flat (mesh : list (list Q)),
+  map Q2R (peraxis_mesh ss cvs (vget shape flat) mesh)
+  = peraxis_mesh ss (map (map Q2R) cvs) (vget shape (map Q2R flat)) (map (map Q2R) mesh).
+Proof. exact peraxis_mesh_transfer. Qed.
+Print Assumptions executed_mesh_is_restriction.
+
+Theorem executed_collocation_is_restriction : forall (e : fexpr) (cvs : list (list Q)),
+  map Q2R (collocate (feval e) cvs) = collocate (feval e) (map (map Q2R) cvs).
+Proof. exact collocate_transfer. Qed.
+Print Assumptions executed_collocation_is_restriction.
 
 (* ------------------------------------------------------------------ *)
 (* Non-vacuity: the hypotheses are satisfiable, and the same definitions run at Q. *)
